@@ -10,8 +10,8 @@ import tempfile
 from lib.evidence import Report
 from checks import algebra as alg
 
-SWEEPERS_COVERED = ['generic_implicit', 'imex_1st_order', 'explicit', 'RungeKutta base class (stage form, end point) with arbitrary lower-triangular tableaux']
-SWEEPERS_NOT_COVERED = ['imex_1st_order_mass', 'multi_implicit', 'verlet', 'boris_2nd_order', 'RungeKuttaIMEX', 'the shipped float tableaux', 'Runge_Kutta_Nystrom',
+SWEEPERS_COVERED = ['generic_implicit (incl. k-dependent preconditioners through updateVariableCoeffs)', 'imex_1st_order', 'explicit', 'multi_implicit', 'RungeKutta base class (stage form, end point) with arbitrary lower-triangular tableaux']
+SWEEPERS_NOT_COVERED = ['imex_1st_order_mass', 'verlet', 'boris_2nd_order', 'RungeKuttaIMEX', 'the shipped float tableaux', 'Runge_Kutta_Nystrom',
                         'Multistep', 'ParaDiagSweepers', 'DAE project sweepers', '*_MPI flavours (see C08)']
 
 
@@ -55,7 +55,7 @@ def run(tier, seed):
             for P, n_inst in ((5, 600 if tier == 'quick' else 6000), (7, 300 if tier == 'quick' else 3000)):
                 insts = []
                 for k in range(n_inst):
-                    inst = alg.random_instance(rng, P, 'sweep', ['impl', 'imex', 'expl', 'rk'])
+                    inst = alg.random_instance(rng, P, 'sweep', ['impl', 'imex', 'expl', 'rk', 'multi'])
                     if k % 5 == 0:
                         alg.make_fixed_point(inst, P, rng)  # exercise the fixed-point clauses non-vacuously
                     insts.append(inst)
